@@ -9,6 +9,7 @@ import (
 	_ "verif/checks/c03"
 	_ "verif/checks/c15"
 	_ "verif/checks/c17"
+	_ "verif/checks/c19"
 	_ "verif/checks/c20"
 )
 
